@@ -90,6 +90,9 @@ func (o Int) BinaryOp(tok token.Token, right Object) (Object, error) {
 			}
 			return o / v, nil
 		case token.Rem:
+			if v == 0 {
+				return nil, ErrZeroDivision
+			}
 			return o % v, nil
 		case token.And:
 			return o & v, nil
@@ -100,8 +103,14 @@ func (o Int) BinaryOp(tok token.Token, right Object) (Object, error) {
 		case token.AndNot:
 			return o &^ v, nil
 		case token.Shl:
+			if v < 0 {
+				return nil, ErrType.NewError("negative shift amount")
+			}
 			return o << v, nil
 		case token.Shr:
+			if v < 0 {
+				return nil, ErrType.NewError("negative shift amount")
+			}
 			return o >> v, nil
 		case token.Less:
 			return Bool(o < v), nil
@@ -236,6 +245,9 @@ func (o Uint) BinaryOp(tok token.Token, right Object) (Object, error) {
 			}
 			return o / v, nil
 		case token.Rem:
+			if v == 0 {
+				return nil, ErrZeroDivision
+			}
 			return o % v, nil
 		case token.And:
 			return o & v, nil
@@ -504,6 +516,9 @@ func (o Char) BinaryOp(tok token.Token, right Object) (Object, error) {
 			}
 			return o / v, nil
 		case token.Rem:
+			if v == 0 {
+				return nil, ErrZeroDivision
+			}
 			return o % v, nil
 		case token.And:
 			return o & v, nil
@@ -514,8 +529,14 @@ func (o Char) BinaryOp(tok token.Token, right Object) (Object, error) {
 		case token.AndNot:
 			return o &^ v, nil
 		case token.Shl:
+			if v < 0 {
+				return nil, ErrType.NewError("negative shift amount")
+			}
 			return o << v, nil
 		case token.Shr:
+			if v < 0 {
+				return nil, ErrType.NewError("negative shift amount")
+			}
 			return o >> v, nil
 		case token.Less:
 			return Bool(o < v), nil
